@@ -72,6 +72,25 @@ CUSTOM["lpeak"] = {"m": 3, "py": lambda q: (lambda x, a, m, w: a / (1 + ((x - m)
                    "ref": lambda x, a, m, w: a / (1 + ((x - m) / w) ** 2)}
 
 
+# user models that are polynomials in x but NOT the pre-set ones: the parameters in the order a user
+# writes them (constant term first), a power left out.  A user function is fitted as what it
+# computes, whatever it is called (CALLABLE NOTES below).
+CUSTOM["affine"] = {"m": 2, "py": lambda q: (lambda x, offset, gain: offset + gain * x),
+                    "nodes": [["var", 0], ["var", 1], ["var", 2], ["bin", "mul", 1, 2],
+                              ["bin", "add", 0, 3]], "root": 4,
+                    "ref": lambda x, offset, gain: offset + gain * x}
+CUSTOM["parabola"] = {"m": 2, "py": lambda q: (lambda x, a, c: a * x ** 2 + c),
+                      "nodes": [["var", 0], ["var", 1], ["var", 2], _c(2.0), ["bin", "pow", 2, 3],
+                                ["bin", "mul", 0, 4], ["bin", "add", 5, 1]], "root": 6,
+                      "ref": lambda x, a, c: a * x ** 2 + c}
+CUSTOM["cubic0"] = {"m": 3, "py": lambda q: (lambda x, c, b, a: c + b * x + a * x ** 3),
+                    "nodes": [["var", 0], ["var", 1], ["var", 2], ["var", 3], ["bin", "mul", 1, 3],
+                              ["bin", "add", 0, 4], _c(3.0), ["bin", "pow", 3, 6], ["bin", "mul", 2, 7],
+                              ["bin", "add", 5, 8]], "root": 9,
+                    "ref": lambda x, c, b, a: c + b * x + a * x ** 3}
+POLY_LIKE = ("custom:affine", "custom:parabola", "custom:cubic0")
+
+
 def custom_spec(case_or_model, case=None):
     """the user model of a case.  `custom:<name>` is an entry of CUSTOM; `custom:o<name>` is the
     same formula in the variable (x - x0) with the constant x0 = case["x0"] written into the
@@ -194,8 +213,11 @@ def as_list(e, n):
 def gen_case(rng, family=None, noise_free=None, form=None, want_range=None, degree=None,
              sx=None, sy=None, units=None, guess=None):
     family = family or rng.choice(["linear", "quadratic", "polynomial", "polynomial", "exponential",
-                                   "gaussian", "custom:sine", "custom:growth", "custom:lorentz"])
+                                   "gaussian", "custom:sine", "custom:growth", "custom:lorentz"] * 3
+                                  + list(POLY_LIKE))
     case = {"model": family, "form": form or rng.choice(FORMS)}
+    if family.startswith("custom:") and rng.random() < 0.6:
+        case["callable"] = gen_callable(rng)
     poly = family in PRESET_POLY
     if poly:
         d = {"linear": 1, "quadratic": 2}.get(family) or degree or rng.randint(1, 5)
@@ -250,6 +272,10 @@ def gen_case(rng, family=None, noise_free=None, form=None, want_range=None, degr
             w = round(rng.uniform(0.5, 2.0), 3)
             ptrue = [round(rng.uniform(1, 10), 3), mu, w]
             xs = distinct_xs(rng, n, mu - 3.0 * w, mu + 3.0 * w)
+        elif family == "custom:cubic0":
+            ptrue = [round(rng.uniform(1, 5), 3), round(rng.uniform(0.3, 2.0), 3),
+                     round(rng.uniform(0.3, 2.0), 3)]
+            xs = distinct_xs(rng, n, -2.0, 3.0)
         else:
             ptrue = [round(rng.uniform(1, 5), 3), round(rng.uniform(0.3, 2.0), 3)]
             xs = distinct_xs(rng, n, -2.0, 3.0)
@@ -316,9 +342,21 @@ def gen_case(rng, family=None, noise_free=None, form=None, want_range=None, degr
         case["xerr_edit"] = {"common": max(xerr), "zero_at": i0,
                              "how": rng.choice(["error=", "item=", "tuple="])}
     case["pscale"] = [1.0] * len(ptrue)
+    if rng.random() < 0.25:
+        case["parnames"] = gen_parnames(rng, len(ptrue))
     if units is not None and (units[0] != 1.0 or units[1] != 1.0):
         rescale(case, float(units[0]), float(units[1]))
     return case
+
+
+def gen_parnames(rng, m):
+    """the documented `parnames` keyword: names in an order that is not the alphabetical one, names
+    of pre-set models, the name a neighbour has by default; the order of the returned parameters
+    is the model's, whatever they are called"""
+    pools = (["z", "y", "x", "w", "v", "u"], ["offset", "gain", "curvature", "d", "e", "f"],
+             ["b", "a", "d", "c", "f", "e"], ["linear", "quadratic", "custom", "c", "b", "a"],
+             ["slope", "intercept", "p2", "p3", "p4", "p5"])
+    return list(rng.choice(pools)[:m])
 
 
 SCALES = (1e-12, 1e-6, 1e-3, 1.0, 1e3, 1e6, 1e12)
@@ -356,7 +394,8 @@ def param_scales(case, xs, ys):
     return {"exponential": [ys, 1 / xs], "gaussian": [ys * xs, xs, xs],
             "custom:sine": [ys, 1 / xs], "custom:growth": [ys, 1 / xs],
             "custom:decay": [ys, 1 / xs], "custom:lpeak": [ys, xs, xs],
-            "custom:lorentz": [ys, 1 / xs ** 2]}[m]
+            "custom:lorentz": [ys, 1 / xs ** 2], "custom:affine": [ys, ys / xs],
+            "custom:parabola": [ys / xs ** 2, ys], "custom:cubic0": [ys, ys / xs, ys / xs ** 3]}[m]
 
 
 def rescale(case, xs, ys):
@@ -441,10 +480,114 @@ def gen_offset(rng, family=None, ratio=None, units=None, **kw):
     return case
 
 
+# ---------------------------------------------------------------------------------------------
+# CALLABLE NOTES.  "A user-defined model" is any callable `f(x, p1, ..., pm)`; which KIND of callable
+# it is and what it is CALLED are accidents of the user's program and must not change the fit.  The
+# generator hands the same formula over as
+#   lambda            a lambda (name "<lambda>")                     -- what the harness always did
+#   def               `def <name>(x, a, b): ...` (made with exec, so that __name__, __qualname__ and
+#                     the code object all carry the name)
+#   renamed           a lambda whose __name__ was assigned
+#   partial           functools.partial(g, k) binding a leading positional constant (no __name__)
+#   object            an instance of a class with __call__ (no __name__)
+#   object-named      the same with an instance attribute __name__
+#   method            a bound method called <name>
+#   decorated         a `*args` wrapper made with functools.wraps (name and signature of the wrapped)
+#   varargs           `def <name>(x, *p)`; the number of parameters comes from parguess
+# under names drawn from: every pre-set model name (the library dispatches on model NAMES, a user's
+# `def linear(x, offset, gain)` is still the user's function), the library's own word "custom", and
+# ordinary names.  Excluded, with the reason: functools.partial binding a KEYWORD (the signature
+# then has a keyword-only parameter, which the library rejects by design: "should not have keyword
+# arguments"); numpy.vectorize objects (signature (*args, **kwargs), rejected the same way).
+CALLABLE_KINDS = ("lambda", "def", "def", "renamed", "partial", "object", "object-named", "method",
+                  "decorated", "varargs")
+PRESET_NAMES = ("linear", "quadratic", "polynomial", "gaussian", "exponential")
+CALLABLE_NAMES = PRESET_NAMES + PRESET_NAMES + ("custom", "model", "func", "f", "fit", "line", "Linear",
+                                                "LINEAR", "poly")
+NAMED_KINDS = ("def", "renamed", "object-named", "method", "decorated", "varargs")
+
+
+def gen_callable(rng, kind=None, name=None):
+    kind = kind or rng.choice(CALLABLE_KINDS)
+    if kind not in NAMED_KINDS:
+        return {"kind": kind}
+    return {"kind": kind, "name": name or rng.choice(CALLABLE_NAMES)}
+
+
+def add_callable(rng, case, kind=None, name=None):
+    """a user-model case handed over as another kind of callable / under another name"""
+    if case["model"].startswith("custom:"):
+        case["callable"] = gen_callable(rng, kind, name)
+    return case
+
+
+def wrap_callable(f, m, spec):
+    """the formula f(x, p1..pm) as the kind of callable the case says"""
+    import functools
+    kind = (spec or {}).get("kind", "lambda")
+    name = (spec or {}).get("name")
+    if kind == "lambda":
+        return f
+    args = ", ".join("p%d" % k for k in range(m))
+    if kind in ("def", "varargs", "method"):
+        ns = {"_f": f}
+        if kind == "def":
+            src = "def {0}(x, {1}):\n    return _f(x, {1})\n".format(name, args)
+        elif kind == "varargs":
+            src = "def {0}(x, *p):\n    return _f(x, *p)\n".format(name)
+        else:
+            src = ("class Analysis:\n    def {0}(self, x, {1}):\n        return _f(x, {1})\n"
+                   "_obj = Analysis()\n").format(name, args)
+        exec(src, ns)                      # noqa: S102  (source text of the harness itself)
+        return getattr(ns["_obj"], name) if kind == "method" else ns[name]
+    if kind == "renamed":
+        ns = {"_f": f}
+        exec("g = lambda x, {0}: _f(x, {0})\n".format(args), ns)      # noqa: S102
+        g = ns["g"]
+        g.__name__ = name
+        g.__qualname__ = name
+        return g
+    if kind == "partial":
+        ns = {"_f": f}
+        exec("def general(k, x, {0}):\n    return _f(x, {0})\n".format(args), ns)   # noqa: S102
+        return functools.partial(ns["general"], 1)
+    if kind in ("object", "object-named"):
+        ns = {"_f": f}
+        exec("class Model:\n    def __call__(self, x, {0}):\n        return _f(x, {0})\n".format(args), ns)  # noqa: S102
+        obj = ns["Model"]()
+        if kind == "object-named":
+            obj.__name__ = name
+        return obj
+    if kind == "decorated":
+        ns = {"_f": f}
+        exec("def {0}(x, {1}):\n    return _f(x, {1})\n".format(name, args), ns)      # noqa: S102
+        inner = ns[name]
+
+        @functools.wraps(inner)
+        def wrapper(*a):
+            return inner(*a)
+        return wrapper
+    raise KeyError(kind)
+
+
+def callable_tag(case):
+    """evidence label: kind of callable, and whether its name is one of the pre-set model names"""
+    sp = case.get("callable")
+    if not sp:
+        return "lambda"
+    t = sp["kind"]
+    if "name" in sp:
+        nm = sp["name"]
+        t += ":named-" + (nm if nm in PRESET_NAMES or nm == "custom" else
+                          "like-a-preset-in-other-case" if nm.lower() in PRESET_NAMES else "other")
+    return t
+
+
 def model_arg(q, case):
     m = case["model"]
     if m.startswith("custom:"):
-        return custom_spec(case)["py"](q)
+        sp = custom_spec(case)
+        return wrap_callable(sp["py"](q), sp["m"], case.get("callable"))
     if case["form"] == "enum":
         return q.FitModel(m)
     return m
@@ -491,6 +634,8 @@ def call_fit(q, case, drop_xerr=False, use_range=True, holder=None):
         kw["parguess"] = list(case["parguess"]) if len(x) % 3 else tuple(case["parguess"])
         if case.get("guess_kind"):
             kw["parguess"] = (list if case["guess_kind"] == "list" else tuple)(case["parguess"])
+    if case.get("parnames"):
+        kw["parnames"] = list(case["parnames"])
     model = model_arg(q, case)
     form = case["form"]
     ek = {}
@@ -857,6 +1002,8 @@ def call_fit_typed(q, case, drop_xerr=False, use_range=True, holder=None):
         kw["degrees"] = A["degrees"]
     if "parguess" in A:
         kw["parguess"] = A["parguess"]
+    if case.get("parnames"):
+        kw["parnames"] = list(case["parnames"])
     model = model_arg(q, case)
     cont = T["container"]
     if cont in ("lists", "xyds", "plot"):
@@ -1037,6 +1184,8 @@ def call_fit_repeated(q, case, drop_xerr=False, use_range=True, holder=None):
         kw["degrees"] = case["degree"]
     if case.get("parguess") is not None:
         kw["parguess"] = list(case["parguess"])
+    if case.get("parnames"):
+        kw["parnames"] = list(case["parnames"])
     model = model_arg(q, case)
     ya = rep_array(q, rep["y"])
     how = rep["how"]
@@ -1120,16 +1269,54 @@ def eval_points(case):
     return list(case["xs"]) + [min(case["x"]), max(case["x"])]
 
 
-HIST_KINDS = ("switch", "switch", "plot", "global-mc", "reread")
+HIST_KINDS = ("switch", "switch", "plot", "global-mc", "reread", "config", "session", "session")
+
+# SESSION NOTES.  A fit result is used for as long as the session lasts: between the fit and the judged
+# reads the user does what programs do between a fit and a report -- changes the print settings and
+# puts them back (by the setters, by get_settings().reset(), by reset_default_configuration()), resets
+# the configuration without having changed anything, clears / adds unit definitions, makes other
+# fits (of other data, of the same data again) and other measurements with correlations of their
+# own, sends a request that is rejected.  None of these requests names the fit result, so the result
+# must read as before and its parameters must still carry the covariances the fit registered.
+# Excluded, with the reason: q.reset_correlations() -- it is the documented request to forget every
+# registered correlation, the parameters' among them; what a fit result means after it is not said
+# by the property.
+SESSION_STEPS = ("reset_default_configuration", "settings.reset", "clear_unit_definitions",
+                 "define_unit", "other-fit", "same-fit-again", "other-measurements", "fault", "gc",
+                 "reset_default_configuration")
+CONFIG_CHANGES = (["print_style", "scientific"], ["print_style", "latex"], ["unit_style", "fraction"],
+                  ["sig_figs_error", 3], ["sig_figs_value", 4], ["plot_dimensions", [8.0, 6.0]],
+                  ["mc_sample_size", 500])
+CONFIG_BACK = ("reset_default_configuration", "reset_default_configuration", "settings.reset", "setters")
+CONFIG_DEFAULTS = {"print_style": "default", "unit_style": "exponents", "plot_dimensions": [6.4, 4.8],
+                   "mc_sample_size": 10000}
 
 
-def gen_hist(rng, plot=None):
+def gen_config_step(rng, back=None):
+    """["config", [[setting, value, route]...], read, back]: print settings (and other settings)
+    changed through the function or the attribute of the settings object, the result read or not
+    while they are in force, then the default configuration restored by `back`"""
+    back = back or rng.choice(CONFIG_BACK)
+    pool = [c for c in CONFIG_CHANGES if back != "setters" or c[0] in CONFIG_DEFAULTS]
+    chosen, seen = [], set()
+    for _ in range(rng.choice([1, 2, 2, 3])):
+        c = rng.choice(pool)
+        if c[0] not in seen:
+            seen.add(c[0])
+            chosen.append([c[0], c[1], rng.choice(["function", "attribute"])])
+    return ["config", chosen, rng.choice(["str", "str", "fit", "none"]), back]
+
+
+def gen_hist(rng, plot=None, session=None):
     """what happens to the result between two rounds of evaluating fit_function:
     ["switch", i, form, spelling]  a value returned for point i (asked as scalar / list / array) gets
                                    the Monte Carlo method (documented: affects this value alone) and is read
     ["plot"]                       the result is drawn (Plot.fit's own figure, or plot(result)) and saved
     ["global-mc", i]               the global error method is Monte Carlo while point i is evaluated and read
-    ["reread", i]                  a returned value is read twice"""
+    ["reread", i]                  a returned value is read twice
+    ["config", changes, read, back]  see gen_config_step
+    ["session", what]              a session-level request that does not name the result (SESSION NOTES)
+    `session`: a step of that kind is put in deliberately ("config:<back>" or one of SESSION_STEPS)"""
     steps = []
     for _ in range(rng.choice([1, 1, 2, 3])):
         k = rng.choice(HIST_KINDS)
@@ -1140,11 +1327,150 @@ def gen_hist(rng, plot=None):
                           rng.choice(["str", "enum"])])
         elif k == "plot":
             steps.append([k])
+        elif k == "config":
+            steps.append(gen_config_step(rng))
+        elif k == "session":
+            steps.append([k, rng.choice(SESSION_STEPS)])
         else:
             steps.append([k, rng.randrange(6)])
     if plot and not any(s[0] == "plot" for s in steps):
         steps.insert(rng.randrange(len(steps) + 1), ["plot"])
+    if session:
+        st = gen_config_step(rng, back=session[7:]) if session.startswith("config:") else ["session", session]
+        steps.insert(rng.randrange(len(steps) + 1), st)
     return steps
+
+
+def session_requests(case):
+    """the history of a case in the vocabulary of the Lean session model (Model/Session.lean:
+    Req), as the driver command `fit.session` reads it.  Values returned by fit_function, other
+    fits and other measurements are NEW OBJECTS with covariances among themselves only."""
+    m = n_params(case)
+    codes = {"print_style": {"default": 0, "scientific": 1, "latex": 2}, "unit_style": {"exponents": 0, "fraction": 1}}
+    out = []
+    for st in case.get("hist") or []:
+        k = st[0]
+        if k in ("switch", "reread"):
+            out.append(["new", 1, []])
+        elif k == "plot":
+            out.append(["new", 0, []])
+        elif k == "global-mc":
+            out += [["set", "error_method", 1], ["set", "mc_sample_size", 50], ["new", 1, []],
+                    ["set", "error_method", 0], ["set", "mc_sample_size", 10000]]
+        elif k == "config":
+            _, changes, _read, back = st
+            for name, value, _route in changes:
+                v = codes.get(name, {}).get(value) if isinstance(value, str) else (
+                    int(value[0]) if isinstance(value, list) else int(value))
+                out.append(["set", name, v])
+            out.append(["new", 1, []])
+            if back == "setters":
+                out += [["set", name, 0] for name, _v, _r in changes]
+            else:
+                out.append(["reset-config"])
+        elif k == "session":
+            w = st[1]
+            if w in ("reset_default_configuration", "settings.reset"):
+                out.append(["reset-config"])
+            elif w == "clear_unit_definitions":
+                out.append(["clear-units"])
+            elif w == "define_unit":
+                out += [["define-unit", "N"], ["new", 1, []]]
+            elif w == "other-fit":
+                out.append(["new", 2, [[0, 1]]])
+            elif w == "same-fit-again":
+                out.append(["new", m, [[i, j] for i in range(m) for j in range(i + 1, m)]])
+            elif w == "other-measurements":
+                out.append(["new", 3, [[0, 1]]])
+            elif w == "fault":
+                out += [["rejected"]] * 5
+            elif w == "gc":
+                out += [["new", 1, []], ["collect"]]
+            else:
+                raise KeyError(w)
+        else:
+            raise KeyError(k)
+    return {"cmd": "fit.session", "m": m, "reqs": out}
+
+
+def _apply_setting(q, name, value, route):
+    st = q.get_settings()
+    if name == "print_style":
+        if route == "function":
+            q.set_print_style(value)
+        else:
+            st.print_style = value
+    elif name == "unit_style":
+        if route == "function":
+            q.set_unit_style(value)
+        else:
+            st.unit_style = value
+    elif name == "sig_figs_error":
+        (q.set_sig_figs_for_error if route == "function" else st.set_sig_figs_for_error)(value)
+    elif name == "sig_figs_value":
+        (q.set_sig_figs_for_value if route == "function" else st.set_sig_figs_for_value)(value)
+    elif name == "plot_dimensions":
+        if route == "function":
+            q.set_plot_dimensions(tuple(value))
+        else:
+            st.plot_dimensions = tuple(value)
+    elif name == "mc_sample_size":
+        if route == "function":
+            q.set_monte_carlo_sample_size(value)
+        else:
+            st.monte_carlo_sample_size = value
+    else:
+        raise KeyError(name)
+
+
+def _session_step(q, r, case, what, log):
+    """a request of the session that does not name the fit result"""
+    if what == "reset_default_configuration":
+        q.reset_default_configuration()
+    elif what == "settings.reset":
+        q.get_settings().reset()
+    elif what == "clear_unit_definitions":
+        q.clear_unit_definitions()
+    elif what == "define_unit":
+        q.define_unit("N", "kg*m/s^2")
+        f = q.Measurement(4.0, 0.5, unit="N")
+        log.append(["define_unit", str(f.unit)])
+    elif what == "other-fit":
+        # other data, a pre-set model with parameters and correlations of its own
+        xs = [0.0, 1.0, 2.0, 3.0, 4.0, 5.0]
+        ys = [1.1, 2.9, 5.2, 6.8, 9.1, 11.2]
+        o = q.fit(xs, ys, "linear", yerr=0.2)
+        log.append(["other-fit", float(o[0].value), float(o[1].error),
+                    float(q.get_correlation(o[0], o[1]))])
+    elif what == "same-fit-again":
+        # the same request once more: a second result with parameter objects of its own
+        o = call_fit(q, case, holder={})
+        log.append(["same-fit-again", [float(p.value) for p in o.params]])
+    elif what == "other-measurements":
+        a = q.Measurement(5.0, 0.5)
+        b = q.Measurement(3.0, 0.2)
+        q.set_covariance(a, b, 0.05)
+        c = a * b
+        log.append(["other-measurements", float(c.value), float(c.error),
+                    float(q.get_correlation(a, b))])
+    elif what == "gc":
+        # the user's other objects go away and the collector runs (the result keeps what it needs)
+        import gc
+        tmp = q.MeasurementArray([1.0, 2.0, 3.0], 0.1)
+        del tmp
+        gc.collect()
+    elif what == "fault":
+        # rejected requests (each raises; nothing may have changed)
+        for req in (lambda: q.set_print_style("nonsense"), lambda: q.set_sig_figs_for_error(-1),
+                    lambda: q.set_error_method("guess"), lambda: q.set_monte_carlo_sample_size(-5),
+                    lambda: q.set_correlation(r[0], r[0] if len(r.params) < 2 else r[1], 7.0)):
+            try:
+                req()
+                log.append(["fault", "accepted"])
+            except Exception as e:  # noqa: BLE001
+                log.append(["fault", type(e).__name__])
+    else:
+        raise KeyError(what)
 
 
 def run_hist(q, r, case, holder, out):
@@ -1189,6 +1515,24 @@ def run_hist(q, r, case, holder, out):
         elif k == "reread":
             v = r.fit_function(pts[st[1]])
             log.append(["reread", float(v.value), float(v.error), float(v.value), float(v.error)])
+        elif k == "config":
+            _, changes, read, back = st
+            for name, value, route in changes:
+                _apply_setting(q, name, value, route)
+            if read == "str":
+                log.append(["config", str(r)])
+            elif read == "fit":
+                v = r.fit_function(pts[0])
+                log.append(["config", str(v), float(v.value), float(v.error)])
+            if back == "reset_default_configuration":
+                q.reset_default_configuration()
+            elif back == "settings.reset":
+                q.get_settings().reset()
+            else:
+                for name, _value, route in changes:
+                    _apply_setting(q, name, CONFIG_DEFAULTS[name], route)
+        elif k == "session":
+            _session_step(q, r, case, st[1], log)
         else:
             raise KeyError(k)
     out["hist_log"] = log
